@@ -33,12 +33,32 @@ CMP = {ast.Eq: "!=", ast.NotEq: "==", ast.Lt: "<=", ast.LtE: "<", ast.Gt: ">=", 
 CMP_TXT = {ast.Eq: "==", ast.NotEq: "!=", ast.Lt: "<", ast.LtE: "<=", ast.Gt: ">", ast.GtE: ">=", ast.Is: "is", ast.IsNot: "is not", ast.In: "in", ast.NotIn: "not in"}
 
 
+# files a property depends on without listing them as anchors (its check exercises them all the same)
+EXTRA = {
+    "indi/device/snoop.py": ["C01", "C12"],
+    "indi/message/get_properties.py": ["C04", "C07"],
+    "indi/message/enable_blob.py": ["C04", "C08"],
+    "indi/message/news.py": ["C04", "C06", "C12"],
+    "indi/message/sets.py": ["C07", "C15"],
+    "indi/message/defs.py": ["C15", "C01"],
+    "indi/message/del_property.py": ["C05", "C15", "C01"],
+    "indi/message/one_parts.py": ["C06", "C15"],
+    "indi/message/def_parts.py": ["C15"],
+    "indi/message/base.py": ["C05", "C07"],
+    "indi/device/events.py": ["C01"],
+}
+
+
 def anchors():
     m = {}
     for l in open(os.path.join(VERIF, "properties.jsonl")):
         d = json.loads(l)
         for f in d["anchors"]["files"]:
             m.setdefault(f, []).append(d["id"])
+    for f, extra in EXTRA.items():
+        for c in extra:
+            if c not in m.setdefault(f, []):
+                m[f].append(c)
     return m
 
 
@@ -158,10 +178,10 @@ def run_one(worker_root, mut, checks, seed):
                 res["by"] = c
                 break
             if r.returncode == 2:
-                res["verdict"] = "harness-error"
-                res["by"] = c
-                res["tail"] = (r.stdout[-600:] + r.stderr[-600:])
-                break
+                # the harness tripped over the broken library: not a verdict; remember it and try the other checks
+                res.setdefault("harness_errors", {})[c] = (r.stdout[-600:] + r.stderr[-600:])
+        if res["verdict"] == "survived" and res.get("harness_errors"):
+            res["verdict"] = "harness-error"
         return res
     finally:
         open(path, "w").write(orig)
